@@ -5,21 +5,98 @@ from . import c13_heads
 LEVEL = "model_checking"
 MANIFEST = dict(
     category="model_checking",
-    text="Heads.tla (with Forms.tla: exact linear forms over named constants) specifies softmax / Gaussian / tanh-Gaussian / deterministic heads and the greedy / epsilon-greedy selectors on a lattice where every value is an exact form; TLC checks the one-distribution laws (normalisation, log-prob = log of entry, entropy closed form, standardised-noise invariance, greedy is a maximiser, epsilon 0 / 1) and totality over un-batched and batched shapes; every lattice vector is replayed into the real heads (eager and jitted). The loop clause is decided on recorded runs of the value-based routines with epsilon interposed to 0, 1 and the routine's own schedule: LoopTrace.tla checks GreedyIsMaximiser, GreedyOnCurrentEstimate, ChosenActionPassed, EpsilonZeroAlwaysGreedy, EpsilonOneNeverGreedy, PolicyBeforeWarmup.",
-    note="values off the lattice (arbitrary logits, general mean/sigma) are not decided; transcendental forms compared with counted rounding bounds; trusted: stub networks, form evaluation in float64, recording wrappers, TLC",
-    technique="TLA+ spec + TLC on an exact-form lattice, replayed into the real heads; trace validation of recorded training runs for the exploration discipline",
+    text="Heads.tla (with Forms.tla: exact linear forms over named constants) specifies softmax / Gaussian / tanh-Gaussian / deterministic heads and the greedy / epsilon-greedy selectors on a lattice where every value is an exact form; TLC checks the one-distribution laws (normalisation, log-prob = log of entry, entropy closed form, standardised-noise invariance, greedy is a maximiser, epsilon 0 / 1) and totality over un-batched and batched shapes; every lattice vector is replayed into the real heads (eager and jitted). The loop clause is decided on recorded runs of the value-based routines with epsilon interposed to 0, 1 and the routine's own schedule: LoopTrace.tla checks GreedyIsMaximiser, GreedyOnCurrentEstimate, ChosenActionPassed, EpsilonZeroAlwaysGreedy, EpsilonOneNeverGreedy, PolicyBeforeWarmup, and ExecutedActionGreedy: with exploration probability 0 every action the environment receives is a maximiser (decided by TLC on float32 ordinals) of the routine's current table / live online network at the observation the environment returned last, read at execution time - also on a scripted environment with self-transitions and negative rewards, where an update changes the maximiser of the row the agent is still in. The design model Loop.tla carries the same clause as the guard of PolicyAct (invariant ExecutedActionGreedy) and refutes the deviation ActOnStaleChoice (execute the choice made before the update).",
+    note="values off the lattice (arbitrary logits, general mean/sigma) are not decided; transcendental forms compared with counted rounding bounds; executed actions are judged for the tabular routines and the DQN family (the routines whose adapter can read the current estimate), with epsilon 0 only; trusted: stub networks, form evaluation in float64, recording wrappers (incl. the adapter's notion of the current table: the one most recently returned by the learner), TLC",
+    technique="TLA+ spec + TLC on an exact-form lattice, replayed into the real heads; TLC on the design model Loop.tla (strict + deviation canary); trace validation of recorded training runs for the exploration discipline",
 )
+
+
+def _eps_zero(t, executed_before):
+    """Mirror of LoopTrace!Eps4 = 0 /\\ past warm-up, for the evidence counters only (verdicts come from TLC)."""
+    c = t["cfg"]
+    idx = c.get("start", 0) + executed_before
+    sw = c.get("eps_switch", -1)
+    e4 = (4 if idx < sw else 0) if sw >= 0 else c.get("epsilon4", -1)
+    return e4 == 0 and idx >= c.get("warmact", -1)
+
+
+def _maxset(qrow):
+    m = max(qrow)
+    return [i for i, v in enumerate(qrow) if v == m]
+
+
+def executed_stats(traces):
+    """Counters over the recorded runs: executed actions that carry the current estimate and are judged (epsilon 0), and
+    self-transitions whose update changed the arg-max set of the row the agent stayed in (the situation in which a choice
+    made before the update differs from one made after it)."""
+    judged, flips, selfs, flip_runs = 0, 0, 0, []
+    for t in traces:
+        if t.get("error"):
+            continue
+        last, prev, n = None, None, 0  # observation returned last, previous step event (same episode), executed steps
+        for e in t["events"]:
+            if e["ev"] == "reset" and e.get("env", 0) == 0:
+                last, prev = e["obs"], None
+            elif e["ev"] == "step" and e.get("env", 0) == 0:
+                if e.get("has_q") and _eps_zero(t, n):
+                    judged += 1
+                    if prev is not None and prev["self"] and prev.get("has_q") and _maxset(prev["qrow"]) != _maxset(e["qrow"]):
+                        flips += 1
+                        if t["id"] not in flip_runs:
+                            flip_runs.append(t["id"])
+                is_self = last is not None and e["obs"] == last
+                selfs += int(is_self)
+                prev = None if (e["term"] or e["trunc"]) else dict(e, self=is_self)
+                last = e["obs"]
+                n += 1
+    return dict(executed_actions_judged=judged, self_transitions=selfs, self_transition_updates_changing_argmax=flips, runs_with_such_updates=flip_runs)
+
+
+def binding_canary_executed(traces):
+    """Replace one executed action of a recorded epsilon-0 run by a non-maximiser of the recorded current estimate:
+    LoopTrace must name ExecutedActionGreedy."""
+    import copy
+
+    from .. import loopbind
+
+    for t in traces:
+        if t.get("error"):
+            continue
+        n = 0
+        for i, e in enumerate(t["events"]):
+            if e["ev"] != "step":
+                continue
+            if e.get("has_q") and _eps_zero(t, n) and len(_maxset(e["qrow"])) < len(e["qrow"]):
+                bad = copy.deepcopy(t)
+                bad["id"] = "canary"
+                bad["events"][i]["act"] = min(a for a in range(len(e["qrow"])) if a not in _maxset(e["qrow"]))
+                out, r, _ = loopbind.validate([bad], tag="canaryx")
+                if "ExecutedActionGreedy" not in {c for _, c in out["canary"]["viol"]}:
+                    raise tlc.MachineryError("binding canary: an executed non-maximiser was not rejected by clause ExecutedActionGreedy")
+                return t["id"]
+            n += 1
+    raise tlc.MachineryError("binding canary: no epsilon-0 step with a recorded current estimate")
 
 
 def run(rep):
     c13_heads.run_heads(rep)
-    for m in ("LoopClauses", "LoopTrace"):
+    for m in ("LoopClauses", "Loop", "LoopTrace"):
         tlc.sany(m)
+    # design model: PolicyAct is guarded by the clause operator; ActOnStaleChoice must be refuted by ExecutedActionGreedy
+    sweep.design_model(rep, "C13", rep.tier == "quick")
     traces, out = sweep.report_property(rep, "C13")
     vb = [t for t in traces if any(e["ev"] == "policy" and "chosen" in e for e in t["events"])]
     rep.extra["loop_clause"] = {"runs_with_greedy_probe": len(vb), "greedy_evaluations": sum(1 for t in vb for e in t["events"] if e["ev"] == "policy")}
     if not vb:
         raise tlc.MachineryError("no recorded run exercises the greedy probe (vacuous loop clause)")
+    st = executed_stats(traces)
+    rep.extra["loop_clause"].update(st)
+    if not st["executed_actions_judged"]:
+        raise tlc.MachineryError("no executed action of an epsilon-0 run carries the routine's current estimate (vacuous ExecutedActionGreedy)")
+    if not st["self_transition_updates_changing_argmax"]:
+        raise tlc.MachineryError("no recorded epsilon-0 run contains a self-transition whose update changed the arg-max set of the row "
+                                 "(scenario E0S lost its point: a stale choice could not be told from a current one)")
+    rep.extra["loop_clause"]["binding_canary_on"] = binding_canary_executed(traces)
 
 
 def replay(path, rep):
